@@ -72,7 +72,7 @@ func (o sqlOperand) str() string {
 	case "num":
 		return o.Text
 	case "str":
-		return strconv.Quote(o.S)
+		return o.Text + strconv.Quote(o.S)
 	case "bool":
 		return fmt.Sprint(o.B)
 	case "time":
@@ -197,6 +197,30 @@ func (c20) Generate(tier string, yield func(*engine.Case) bool) {
 			}
 		}
 	}
+	// the same operands written in other literal spellings (raw strings, \u escapes)
+	for _, sv := range c20Strings {
+		for _, form := range []string{"raw", "uesc"} {
+			if form == "raw" && strings.Contains(sv, "`") {
+				continue
+			}
+			if form == "uesc" {
+				big := false
+				for _, r := range sv {
+					if r > 0xffff {
+						big = true
+					}
+				}
+				if big {
+					continue
+				}
+			}
+			for _, op := range []string{"=", "LIKE"} {
+				for _, cf := range ctxs[:2] {
+					emit("string-spellings", cf(&crit{Op: op, Field: "s", Operands: []sqlOperand{{Kind: "str", S: sv, Text: form}}}), std)
+				}
+			}
+		}
+	}
 	for _, n := range c20Numbers {
 		for _, op := range []string{"=", "<>", ">", ">=", "<", "<="} {
 			for _, cf := range ctxs {
@@ -223,6 +247,16 @@ func toAstOperand(o sqlOperand) ast.Expr {
 	case "num":
 		return ast.Num(o.Text, pos.Unknown)
 	case "str":
+		switch o.Text {
+		case "raw": // the same string written as a raw literal
+			return ast.Str("`"+o.S+"`", pos.Unknown)
+		case "uesc": // every character written as a \u escape
+			t := "\""
+			for _, r := range o.S {
+				t += fmt.Sprintf("\\u%04x", r)
+			}
+			return ast.Str(t+"\"", pos.Unknown)
+		}
 		return ast.Str(strconv.Quote(o.S), pos.Unknown)
 	case "bool":
 		if o.B {
